@@ -152,6 +152,13 @@ def run_property(modname, tier, seed, replay=None, procs=None):
                 discharged += 1
             else:
                 report['broken'].append('theorem %s: %s' % (t, ax))
+        # every theorem DECLARED in the property's theorem modules (registered or not: helper statements, examples given names,
+        # witnesses) is audited as well: none may rest on an axiom outside the three
+        allthm = getattr(lean.audit, 'last_all', {}) or {}
+        report['audited_all_theorems_of_modules'] = len(allthm)
+        for t, ax in sorted(allthm.items()):
+            if not set(ax) <= lean.ALLOWED_AXIOMS:
+                report['broken'].append('theorem %s (declared in a registered module): axioms %s' % (t, ax))
     hits = lean.grep_forbidden()
     if hits:
         report['broken'].append('forbidden tokens: ' + '; '.join(hits[:5]))
@@ -297,6 +304,7 @@ def write_evidence(pid, tier, seed, mod, report, results, new_viol, disagreement
         'explanation': getattr(mod, 'EXPLANATION', ''),
         'source_units_differing_from_baseline': report.get('source_changed', []),
         'notes': report.get('notes', []),
+        'theorems_declared_in_registered_modules_audited': report.get('audited_all_theorems_of_modules'),
     }
     if 'leanchecker' in report:
         cov['leanchecker'] = report['leanchecker']
